@@ -217,7 +217,7 @@ pub fn run(ctx: &mut Ctx) {
     ctx.rule = "2D: every euclidean symbol (own classification of all assignments with K = 0 and degrees >= 3 on all enumerated D-sets) with fixed and proptest-generated renumberings and duals; 3D: all symbols with good spherical tiles and vertex figures and branching in {1,2,3,4,6} over all enumerated 3D D-sets up to a size bound (own backtracking with own curvature / orbifold oracle), each with a renumbered or dual variant, plus the literature corpus and products (euclidean 2D symbol) x (line tiling)".into();
     ctx.assume("the crystallographic restriction and complete euclidean input are part of the generators (the routines assert them)");
     ctx.assume("products of plane groups with line groups are space groups: product symbols are euclidean independently of the crate");
-    ctx.assume("the quotient of the cubic tiling of E^3 by a group generated by lattice translations and signed coordinate permutations with lattice shifts is a euclidean symbol by definition");
+    ctx.assume("the quotient of the cubic tiling of E^3 (or of a triangular / square prism tiling) by a group generated by lattice translations and isometries that map the tiling to itself is a euclidean symbol by definition");
     ctx.assume("a closed manifold homeomorphic to T^3 (T^3 # S^3 built by tile surgery) is euclidean; S^2 x S^1, RP^3 and connected sums of them are not");
     crate::props::run_regressions(ctx, "C15");
 
@@ -242,13 +242,13 @@ pub fn run(ctx: &mut Ctx) {
     cases3.extend(crate::props::c17::cubic_cases(ncub, t.pick(3, 4)));
     cases3.extend(crate::props::c17::manifold_cases(nman, true));
     let n3 = cases3.len();
-    ctx.run_par(&SUB_PTC, cases3.clone(), Some(&format!("{} cases: 3D symbols with spherical tiles and vertex figures and branching in {{1,2,3,4,6}}: {}; the 20 literature symbols; all products of euclidean 2D symbols with <= {} chambers with the 4 line tilings; {} quotients of the cubic tiling by space groups; cubical 3-manifolds of known topology with {} gluing choices", n3, pool_text, t.pick(4, 6), ncub, nman)));
+    ctx.run_par(&SUB_PTC, cases3.clone(), Some(&format!("{} cases: 3D symbols with spherical tiles and vertex figures and branching in {{1,2,3,4,6}}: {}; the 20 literature symbols; all products of euclidean 2D symbols with <= {} chambers with the 4 line tilings; {} quotients of the cubic tiling and of triangular / square prism tilings by space groups; cubical 3-manifolds of known topology with {} gluing choices", n3, pool_text, t.pick(4, 6), ncub, nman)));
 
     ctx.layer("random");
     let pool2 = Arc::new(eu);
     let sw = || prop::collection::vec((any::<u32>(), any::<u32>()), 0..8);
     ctx.run_prop(&SUB_TOR2, move || { let p = pool2.clone(); (any::<u32>(), sw(), any::<bool>()).prop_map(move |(k, swaps, dual)| TorCase { ds: p[pick_index(k, p.len())].clone(), swaps, dual, known: String::new(), kind: String::new() }) }, t.pick(1_500, 30_000));
-    ctx.layer("random-cubic-quotients");
+    ctx.layer("random-space-group-quotients");
     let max_n = t.pick(3, 4);
     ctx.run_prop(&SUB_PTC, move || crate::props::c17::cubic_strategy(max_n), t.pick(300, 6_000));
     ctx.layer("random");
